@@ -5,7 +5,7 @@ import json
 import os
 
 from engine import rule, AnchorLost, VERIF
-from model import Super, PathSens, fn_of, trace, strace, is_place, site
+from model import Super, PathSens, fn_of, trace, strace, is_place, site, strace_deep
 import common
 import flagstate
 import ival
@@ -108,6 +108,24 @@ def canon_encodings(lib, d):
                 if tr.origin and tr.origin[0] == "agg":
                     en = tr.origin[1]["rv"]["variant"]
                     dec = f.get("impl_self_adt")
+        if dec is None:
+            # the arm builds the decoder in a helper it calls (`Self::from_utf16(reader, Big)`): the same search on
+            # the arm's part of the constructor's supergraph, the endianness followed through the helper's parameter
+            csup = Super(lib, ctor, depth=2)
+            found = set()
+            for nn in csup.reachable_from((csup.entry[0], tgts[0])):
+                if nn[0] == csup.entry[0]:
+                    continue
+                t = csup.body_of(nn).blocks[nn[1]]["term"]
+                f = fn_of(t) if t["k"] == "call" else None
+                if f and f.get("local") and f["name"] == "new" and len(t["args"]) == 2 and f.get("impl_self_adt"):
+                    tr = strace_deep(csup, nn, t["args"][1])
+                    if tr.origin and tr.origin[0] == "agg" and tr.origin[1]["rv"].get("variant") and any(k_[1] == tr.origin[1]["rv"]["variant"] for k_ in endian):
+                        found.add((f["impl_self_adt"], tr.origin[1]["rv"]["variant"]))
+            if len(found) > 1:
+                raise AnchorLost(f"encoder constructor arm {var['name']} builds several decoders: {sorted(found)}")
+            if found:
+                dec, en = next(iter(found))
         if dec is None:
             canon[var["name"]] = "utf8"
             detail[var["name"]] = "passthrough"
@@ -416,6 +434,20 @@ def r07_5(ctx):
                 which = "lead" if base == 0xD800 else "trail"
                 ctx.ob(f"pair-half:{which}", ok, site(b, line=s["line"]),
                        f"{which} unit ∈ {shown}" + ("" if ok else f" — not confined to [{base:#x}, {base + 0x3ff:#x}]: an ill-formed pair would decode to a fabricated character instead of an error"))
+            # the same subtraction written through the operator trait (`unit - RANGE.start()` is `u16 - &u16`)
+            t_ = b.blocks[bi]["term"]
+            f_ = fn_of(t_) if t_["k"] == "call" else None
+            if f_ and f_.get("trait") == "std::ops::Sub" and len(t_["args"]) == 2:
+                cv = iv.at_call(bi, t_["args"][1])
+                if cv and len(cv) == 1 and cv[0][0] == cv[0][1] and cv[0][0] in (0xD800, 0xDC00):
+                    n += 1
+                    base = cv[0][0]
+                    v = iv.at_call(bi, t_["args"][0])
+                    ok = bool(v) and ival.subset(v, [(base, base + 0x3FF)])
+                    shown = "unknown" if not v else " ∪ ".join(f"[{lo:#x}, {hi:#x}]" for lo, hi in v)
+                    which = "lead" if base == 0xD800 else "trail"
+                    ctx.ob(f"pair-half:{which}", ok, site(b, line=t_.get("line")),
+                           f"{which} unit ∈ {shown}" + ("" if ok else f" — not confined to [{base:#x}, {base + 0x3ff:#x}]: an ill-formed pair would decode to a fabricated character instead of an error"))
         # the combining arithmetic must be exact: no operation on the way to the unchecked conversion
         # may leave its type's range (a 16-bit shift of the lead offset silently drops plane bits)
         lines = set()
@@ -467,7 +499,8 @@ def _feeding_lines(b, sites):
                     work.append(rv["p"]["l"])
             elif kind == "call":
                 f = fn_of(payload) or {}
-                if f.get("trait") == "std::convert::From" or f.get("name") in ("from",):
+                if f.get("trait") == "std::convert::From" or f.get("name") in ("from",) or f.get("trait") in ival._ARITH_TRAITS:
+                    lines.add(payload.get("line"))
                     for a in payload["args"]:
                         if is_place(a):
                             work.append(a["p"]["l"])
@@ -593,110 +626,109 @@ def _byte_count(b, op):
     return None
 
 
-def _helper_takes(lib, h):
-    """For a same-crate helper that reads one unit: the byte count it takes from its reader on the paths that
-    build a `Some(..)` (a unit was read), as an int or as the name of a const generic (`N` of `[u8; N]`);
-    None when the paths disagree or an amount is not recognisable."""
-    totals = set()
-    ok = [True]
-
-    def amount(bi):
-        t = h.blocks[bi]["term"]
-        if t["k"] != "call":
-            return 0
-        f = fn_of(t) or {}
-        if f.get("trait") == "std::io::Read" and f.get("name") == "read_exact" and len(t["args"]) == 2:
-            k = _array_len_behind(h, t["args"][1])
-            if k is not None:
-                return k
-            # `[u8; N]` with a const generic N
-            cur = t["args"][1]
-            for _ in range(6):
-                if not is_place(cur):
-                    break
-                m = re.match(r"^&?(?:mut )?\[u8; ([A-Z_][A-Za-z0-9_]*)\]$", h.local_ty(cur["p"]["l"]))
-                if m:
-                    return m.group(1)
-                ds = h.whole_defs(cur["p"]["l"])
-                if len(ds) != 1 or ds[0][2] != "assign":
-                    break
-                rv = ds[0][3]["rv"]
-                cur = rv["op"] if rv["k"] in ("use", "cast") else ({"k": "copy", "p": {"l": rv["p"]["l"], "pr": []}} if rv["k"] in ("ref", "copyforderef") else None)
-                if cur is None:
-                    break
-            return None
-        if f.get("trait") == "std::io::BufRead" and f.get("name") == "consume" and len(t["args"]) == 2:
-            return _byte_count(h, t["args"][1])
-        if f.get("trait") == "std::io::Read" and f.get("name") in ("read", "read_to_end", "read_buf", "read_vectored", "read_to_string"):
-            return None
-        return 0
-
-    def walk(bi, seen, acc, some):
-        a = amount(bi)
-        if a is None:
-            ok[0] = False
-            return
-        acc = acc + [a] if a != 0 else acc
-        some = some or any(s_["k"] == "assign" and s_["rv"]["k"] == "aggregate" and s_["rv"].get("variant") == "Some" for s_ in h.blocks[bi]["stmts"])
-        if h.blocks[bi]["term"]["k"] == "return":
-            if some:
-                totals.add(tuple(sorted(map(str, acc))))
-            return
-        for lab, x in h.edges(bi):
-            if x in seen or h.blocks[x].get("cleanup"):
-                continue
-            walk(x, seen | {x}, acc, some)
-
-    walk(0, {0}, [], False)
-    if not ok[0] or len(totals) != 1:
-        return None
-    tot = next(iter(totals))
-    if len(tot) != 1:
-        return None
-    return int(tot[0]) if tot[0].isdigit() else tot[0]
+def _same_array(sup, node, op, arr):
+    """`op` (read at `node`) is a view of the array local `arr` = (path, local): `&mut unit`, `&unit as &[u8]`."""
+    cur_node, cur = node, op
+    for _ in range(10):
+        if not is_place(cur):
+            return False
+        body = sup.body_of(cur_node)
+        l = cur["p"]["l"]
+        if (cur_node[0], l) == arr and all(e["k"] == "deref" for e in cur["p"]["pr"]):
+            return True
+        ds = body.whole_defs(l)
+        if not ds and 1 <= l <= body.nargs:
+            res = sup.caller_operand(cur_node, l)
+            if not res:
+                return False
+            cur_node, _, cur = res
+            continue
+        if len(ds) != 1 or ds[0][2] != "assign":
+            return False
+        rv = ds[0][3]["rv"]
+        if rv["k"] in ("use", "cast"):
+            cur = rv["op"]
+        elif rv["k"] in ("ref", "copyforderef"):
+            cur = {"k": "copy", "p": {"l": rv["p"]["l"], "pr": [e for e in rv["p"]["pr"] if e["k"] != "deref"]}}
+        else:
+            return False
+    return False
 
 
-def _block_effects(b, bi, pos_field, unit_helper=None):
-    """(bytes consumed from a reader, bytes added to the position field) by block bi; None for an amount that is
-    not a constant. `unit_helper` = (call term, bytes) of the same-crate unit-reading helper whose Some payload
-    is what gets decoded."""
+def _unit_effects(sup, node, arr, width):
+    """(bytes taken from a reader, bytes added to a u64 position) by the block `node` of a supergraph, in units of
+    bytes; None for an amount that cannot be determined. A read_exact into the decoded array `arr` and a length
+    of that array both count as `width` (the array handed to the decode function has exactly that many bytes)."""
+    body = sup.body_of(node)
+    blk = body.blocks[node[1]]
     used = adv = 0
-    t = b.blocks[bi]["term"]
-    if t["k"] == "call" and unit_helper is not None and t is unit_helper[0]:
-        used = unit_helper[1]
-    elif t["k"] == "call":
+
+    def amount(op):
+        """Constant byte count of an operand: a literal, `.len()` of a [u8; K] array (K known, or the decoded
+        array), or the const generic that is that array's length."""
+        if op.get("k") == "const":
+            if isinstance(op.get("v"), int) and not isinstance(op.get("v"), bool):
+                return op["v"]
+            if op.get("param") and arr is not None and re.search(r"\[u8; " + re.escape(op["param"]) + r"\]", sup.body_of((arr[0], 0)).local_ty(arr[1])):
+                return width
+            return None
+        tr = trace(body, op)
+        if tr.origin and tr.origin[0] == "const":
+            return amount(tr.origin[1] if "k" in tr.origin[1] else dict(tr.origin[1], k="const"))
+        if tr.origin and tr.origin[0] == "call" and (fn_of(tr.origin[2]) or {}).get("name") == "len" and tr.origin[2]["args"]:
+            a0 = tr.origin[2]["args"][0]
+            if arr is not None and _same_array(sup, (node[0], tr.origin[1]), a0, arr):
+                return width
+            return _array_len_behind(body, a0)
+        if tr.origin and tr.origin[0] == "rvalue" and tr.origin[1]["rv"]["k"] == "cast":
+            return amount(tr.origin[1]["rv"]["op"])
+        return None
+
+    t = blk["term"]
+    if t["k"] == "call":
         f = fn_of(t) or {}
         if f.get("trait") == "std::io::Read" and f.get("name") == "read_exact" and len(t["args"]) == 2:
-            k = _array_len_behind(b, t["args"][1])
-            used = None if k is None else k
+            if arr is not None and _same_array(sup, node, t["args"][1], arr):
+                used = width
+            else:
+                used = _array_len_behind(body, t["args"][1])
         elif f.get("trait") == "std::io::BufRead" and f.get("name") == "consume" and len(t["args"]) == 2:
-            k = _byte_count(b, t["args"][1])
-            used = None if k is None else k
+            used = amount(t["args"][1])
         elif f.get("trait") == "std::io::Read" and f.get("name") in ("read", "read_to_end", "read_buf", "read_vectored", "read_to_string"):
             used = None
-    for s_ in b.blocks[bi]["stmts"]:
-        if s_["k"] == "assign" and s_["p"]["pr"] and s_["p"]["pr"][-1]["k"] == "field" and s_["p"]["pr"][-1].get("name") == pos_field:
-            # `self.pos = (self.pos + k).0`: find the addend
-            tr = trace(b, s_["rv"]["op"]) if s_["rv"]["k"] == "use" else None
-            k = None
-            if tr is not None and tr.origin and tr.origin[0] == "rvalue" and tr.origin[1]["rv"]["k"] == "binop" and tr.origin[1]["rv"]["op"] in ("Add", "AddWithOverflow"):
-                k = _byte_count(b, tr.origin[1]["rv"]["b"])
-            elif s_["rv"]["k"] == "binop" and s_["rv"]["op"] in ("Add", "AddWithOverflow", "AddUnchecked"):
-                # without overflow checks `pos += n` is a plain `pos = Add(pos, n)`
-                k = _byte_count(b, s_["rv"]["b"])
-            adv = None if (k is None or adv is None) else adv + k
+    for s_ in blk["stmts"]:
+        if s_["k"] != "assign" or not s_["p"]["pr"]:
+            continue
+        last = s_["p"]["pr"][-1]
+        is_u64_place = (last["k"] == "field" and last.get("ty") == "u64") or (last["k"] == "deref" and body.local_ty(s_["p"]["l"]).endswith("u64") and len(s_["p"]["pr"]) == 1)
+        if not is_u64_place:
+            continue
+        rv = s_["rv"]
+        k = None
+        if rv["k"] == "binop" and rv["op"] in ("Add", "AddWithOverflow", "AddUnchecked"):
+            k = amount(rv["b"])
+        elif rv["k"] == "use" and is_place(rv["op"]):
+            tr = trace(body, rv["op"])
+            if tr.origin and tr.origin[0] == "rvalue" and tr.origin[1]["rv"]["k"] == "binop" and tr.origin[1]["rv"]["op"] in ("Add", "AddWithOverflow"):
+                k = amount(tr.origin[1]["rv"]["b"])
+            else:
+                continue  # a plain store (constructor, reset): not an advance
+        else:
+            continue
+        adv = None if (k is None or adv is None) else adv + k
     return used, adv
 
 
-@rule("R07.8", 2, "a code-unit reader takes exactly one unit's bytes from the source for the unit it decodes, and advances its position by the same amount, on every path", ["C07"])
+@rule("R07.8", 2, "a code-unit reader takes exactly one unit's bytes from the source for the unit it decodes, and advances its position by the same amount, on every path", ["C07", "C02"])
 def r07_8(ctx):
     lib = ctx.lib
     d = detect_fn(lib)
     n = 0
-    for b in lib.bodies:
-        if b.file != d.file:
+    seen_units = set()
+    for b0 in lib.bodies:
+        if b0.file != d.file:
             continue
-        for dbb, dt in b.calls():
+        for dbb0, dt in b0.calls():
             f = fn_of(dt) or {}
             callee = lib.by_id.get(f.get("resolved") or f.get("def"))
             if not (callee and f.get("local") and len(dt["args"]) == 2):
@@ -705,67 +737,119 @@ def r07_8(ctx):
             if not m or callee.local_ty(0) not in ("u16", "u32"):
                 continue
             width = int(m.group(1))
+            # the function that reads the unit: the decode may sit in a closure of it (`unit.map(|u| decode(u))`)
+            ub = b0
+            while ub.raw["def_kind"] == "Closure" and ub.raw.get("parent") in lib.by_id:
+                ub = lib.by_id[ub.raw["parent"]]
+            if (ub.id, width) in seen_units:
+                continue
+            seen_units.add((ub.id, width))
             n += 1
-            adt = lib.adts.get(b.raw.get("impl_self_adt") or "", {})
-            pos_fields = [fl["name"] for fl in (adt.get("variants") or [{"fields": []}])[0]["fields"] if fl["ty"] == "u64"]
-            pos_field = pos_fields[0] if len(pos_fields) == 1 else None
-            # the unit may be read by a same-crate helper (`read_code_unit::<_, 2>(&mut self.source)?`): its Some
-            # payload is what is decoded, and it takes as many bytes as its array type says
-            unit_helper = None
-            feed = trace(b, dt["args"][1], passthrough_extra=("std::ops::Try::branch",))
-            if feed.origin and feed.origin[0] == "call" and (fn_of(feed.origin[2]) or {}).get("local") and any(st_[0] == "downcast" and st_[1] == "Some" for st_ in feed.steps):
-                hf = fn_of(feed.origin[2])
-                h = lib.by_id.get(hf.get("resolved") or hf.get("def"))
-                takes = _helper_takes(lib, h) if h is not None else None
-                if isinstance(takes, str):
-                    # a const generic: read it off the instantiated result type at the call site
-                    pat = re.escape(h.local_ty(0)).replace(re.escape(f"[u8; {takes}]"), r"\[u8; (\d+)\]")
-                    m2 = re.match("^" + pat + "$", b.local_ty(feed.origin[2]["dest"]["l"]))
-                    takes = int(m2.group(1)) if m2 else None
-                unit_helper = (feed.origin[2], takes)
-            # every simple path from the entry to the decode call
-            paths = []
-            overflow = [False]
+            sup = Super(lib, ub, depth=3)
+            dnodes = [nn for nn, nb, t in sup.calls() if t is dt]
+            if not dnodes:
+                ctx.ob(f"unit-bytes:{ub.name}", False, site(b0, dbb0), "the decode call is not reachable in the unit reader's supergraph")
+                continue
+            dn = dnodes[0]
+            # the array that is decoded, where it is created
+            feed = strace_deep(sup, dn, dt["args"][1], extra=("std::ops::Try::branch", "::transpose"))
+            arr = None
+            if feed.origin and feed.origin[0] in ("rvalue", "agg", "multi"):
+                onode = feed.origin_node
+                ol = None
+                if feed.origin[0] == "multi":
+                    ol = feed.origin[1]
+                else:
+                    st_ = feed.origin[1]
+                    ol = st_["p"]["l"] if isinstance(st_, dict) and "p" in st_ and not st_["p"]["pr"] else None
+                obody = sup.body_of(onode)
+                if ol is not None and not re.match(r"^\[u8; ", obody.local_ty(ol)) and feed.origin[0] == "multi":
+                    # the helper's return value has several definitions (`Ok(None)`, `Ok(Some(unit))`, `?`): follow the
+                    # one that the decode's projections select (`?` = Ok, then Some)
+                    want = []
+                    for st_ in reversed(feed.steps):
+                        if st_[0] == "enter_callee":
+                            continue
+                        if st_[0] == "downcast":
+                            # `?` continues with Ok (on a Result) or Some (on an Option)
+                            want.append({"Continue": ("Ok", "Some"), "Break": ("Err", "None")}.get(st_[1], (st_[1],)))
+                        if st_[0] == "enter_caller":
+                            break
+                    def descend(l, want_):
+                        if not want_:
+                            return l
+                        for _, _, k_, p_ in obody.whole_defs(l):
+                            if k_ == "assign" and p_["rv"]["k"] == "aggregate" and p_["rv"].get("variant") in want_[0] and p_["rv"]["ops"] and is_place(p_["rv"]["ops"][0]):
+                                o_ = p_["rv"]["ops"][0]
+                                t2 = trace(obody, o_)
+                                cands = []
+                                if t2.origin and t2.origin[0] == "multi" and all(x[0] == "use" for x in t2.steps):
+                                    cands.append(t2.origin[1])
+                                elif t2.origin and t2.origin[0] in ("rvalue", "agg") and all(x[0] == "use" for x in t2.steps) and isinstance(t2.origin[1], dict) and "p" in t2.origin[1] and not t2.origin[1]["p"]["pr"]:
+                                    cands.append(t2.origin[1]["p"]["l"])
+                                if not o_["p"]["pr"]:
+                                    cands.append(o_["p"]["l"])
+                                for c_ in cands:
+                                    r_ = descend(c_, want_[1:])
+                                    if r_ is not None and (want_[1:] or re.match(r"^\[u8; ", obody.local_ty(r_))):
+                                        return r_
+                        return None
 
-            def walk(bi, seen, used, adv):
-                if len(paths) > 4000:
-                    overflow[0] = True
+                    if any(st_[0] == "call" and "::transpose" in st_[1] for st_ in feed.steps) and len(want) == 2:
+                        # `.transpose()` swapped the nesting: try the other order too
+                        cur_l = descend(ol, want) or descend(ol, list(reversed(want)))
+                    else:
+                        cur_l = descend(ol, want)
+                    ol = cur_l
+                if ol is not None and re.match(r"^\[u8; ", obody.local_ty(ol)):
+                    arr = (onode[0], ol)
+            # every simple path from the entry to the decode
+            results = []
+            budget = [0]
+
+            ps = PathSens(sup, payloads=True)
+
+            def walk(node, facts, seen, used, adv):
+                """Variant-aware walk: a helper that returned `Ok(None)` is not followed into the caller's `Some`
+                arm (the facts PathSens keeps about Option/Result variants prune such paths)."""
+                budget[0] += 1
+                if budget[0] > 60000:
                     return
-                if bi != dbb or not seen:
-                    u, a = _block_effects(b, bi, pos_field, unit_helper) if bi != dbb else (0, 0)
+                if node != dn:
+                    u, a = _unit_effects(sup, node, arr, width)
                     used = None if (u is None or used is None) else used + u
                     adv = None if (a is None or adv is None) else adv + a
-                if bi == dbb:
-                    paths.append((used, adv, tuple(seen)))
+                if node == dn:
+                    results.append((used, adv))
                     return
-                for lab, x in b.edges(bi):
-                    if x in seen or b.blocks[x].get("cleanup"):
+                for lab, m_, f2 in ps.step(node, facts):
+                    if m_ in seen or sup.body_of(m_).blocks[m_[1]].get("cleanup"):
                         continue
-                    walk(x, seen + [x], used, adv)
+                    walk(m_, f2, seen | {m_}, used, adv)
 
-            walk(0, [0], 0, 0)
-            # position updates may also follow the decode: extend each path to the returns
-            bad_used = sorted({u for u, _, _ in paths if u != width}, key=str)
-            ok_u = bool(paths) and not bad_used and not overflow[0]
-            ctx.ob(f"unit-bytes:{b.name}", ok_u, site(b, dbb),
-                   f"{len(paths)} path(s) to the decode of a {width}-byte unit: each takes exactly {width} byte(s) from the source" if ok_u else
+            walk(sup.entry, {}, {sup.entry}, 0, 0)
+            bad_used = sorted({u for u, _ in results if u != width}, key=str)
+            ok_u = bool(results) and not bad_used and budget[0] <= 60000
+            ctx.ob(f"unit-bytes:{ub.name}", ok_u, sup.site(dn),
+                   f"{len(results)} path(s) to the decode of a {width}-byte unit: each takes exactly {width} byte(s) from the source" if ok_u else
                    f"a path to the decode of a {width}-byte unit takes {bad_used} byte(s) from the source (None = not a constant): later units are decoded misaligned")
-            if pos_field:
-                tail = _block_effects(b, dbb, pos_field)[1] or 0
-                after = 0
-                cur = dt["target"]
-                guard = 0
-                while cur is not None and guard < 6:
-                    guard += 1
-                    a = _block_effects(b, cur, pos_field)[1]
+            # the position may also be advanced after the decode, on the straight line to the return
+            after = 0
+            cur = dn
+            guard = 0
+            while cur is not None and guard < 12:
+                guard += 1
+                nx = [m_ for lab, m_ in sup.edges(cur) if not sup.body_of(m_).blocks[m_[1]].get("cleanup") and lab not in ("call", "maycall")]
+                cur = nx[0] if len(nx) == 1 else None
+                if cur is not None:
+                    a = _unit_effects(sup, cur, arr, width)[1]
                     after = None if (a is None or after is None) else after + a
-                    nx = [x for lab, x in b.edges(cur) if not b.blocks[x].get("cleanup")]
-                    cur = nx[0] if len(nx) == 1 else None
-                bad_adv = sorted({(a + tail + after) if (a is not None and after is not None) else None for _, a, _ in paths} - {width}, key=str)
-                ok_a = bool(paths) and not bad_adv
-                ctx.ob(f"unit-position:{b.name}", ok_a, site(b, dbb),
-                       f"`{pos_field}` advances by {width} for each decoded unit" if ok_a else f"`{pos_field}` advances by {bad_adv} instead of {width} on some path: error offsets drift")
-    ctx.ob("unit-readers", n >= 2, site(d), f"{n} code-unit decode site(s)")
+            advs = {(a + after) if (a is not None and after is not None) else None for _, a in results}
+            if advs - {0}:
+                bad_adv = sorted(advs - {width}, key=str)
+                ok_a = not bad_adv
+                ctx.ob(f"unit-position:{ub.name}", ok_a, sup.site(dn), f"the position advances by {width} for each decoded unit" if ok_a else f"the position advances by {bad_adv} instead of {width} on some path: error offsets drift")
+    ctx.ob("unit-readers", n >= 2, site(d), f"{n} code-unit reader(s)")
 
 
 @rule("R07.7", 1, "a character encoded into a scratch array is emitted only up to its encoded length: every slice of the scratch array ends at encode_utf8(..).len() (or at a minimum with it)", ["C07"])
@@ -829,7 +913,7 @@ def r07_7(ctx):
     ctx.ob("scratch-encodes", n >= 1, "lib", f"{n} encode_utf8 call(s) into a local scratch array")
 
 
-@rule("R07.6", 2, "the encoding detector always sees the first 4 bytes (or the whole input if shorter): whole slice, prefix(N>=4), or a buffer filled by copying from take(N>=4)", ["C07", "C02"])
+@rule("R07.6", 2, "the encoding detector always sees the first 4 bytes (or the whole input if shorter): whole slice, prefix(N>=4), or a buffer filled by copying from take(N>=4)", ["C07", "C02", "C09"])
 def r07_6(ctx):
     lib = ctx.lib
     d = detect_fn(lib)
